@@ -157,10 +157,14 @@ Definition child_run (pipes : list (nat * nat)) (capo cape : option (nat * nat))
   match child_from st hs p with
   | inr q => mkkid idx q (OExit 1)
   | inl p =>
-    match child_redirs (idx <? pc) capture (s_redirs st) false false p with
+    (* notes/C04-fix-4.patch (v_capfirst): the capture pipes become 1 / 2 BEFORE the redirection loop, and the
+       loop has no special case for a captured stage any more *)
+    let cap := (idx =? pc) && capture in
+    let p := if cap && v_capfirst v then child_capture capo cape false false p else p in
+    match child_redirs (idx <? pc) (capture && negb (v_capfirst v)) (s_redirs st) false false p with
     | inr q => mkkid idx q (OExit 1)
     | inl (p, so, se) =>
-      let p := if (idx =? pc) && capture then child_capture capo cape so se p else p in
+      let p := if cap && negb (v_capfirst v) then child_capture capo cape so se p else p in
       child_finish idx st p
     end
   end.
